@@ -20,6 +20,7 @@ class Driver:
         self.gene_of = {}       # id(real cds) -> gene id
         self.area_of = {}       # id(real area) -> area id
         self.keep = []          # keeps removed features alive so ids stay unique
+        self.made = {}          # area id -> the real feature built for it
 
     def apply(self, call: dict) -> str:
         """ Performs the call; returns "" or the exception name. """
@@ -36,14 +37,21 @@ class Driver:
                 record.add_cds_feature(cds)
             elif op == "AddProto":
                 area = self.uni["areas"][arg - 1]
-                proto = Protocluster(build.loc(area["core"]), build.loc(area["extent"]), tool="verif",
-                                     product=area["product"], cutoff=1, neighbourhood_range=1, detection_rule="rule")
+                # an area that was cleared and is added again is the same object (clearing and re-creating areas)
+                proto = self.made.get(arg)
+                if proto is None:
+                    proto = Protocluster(build.loc(area["core"]), build.loc(area["extent"]), tool="verif",
+                                         product=area["product"], cutoff=1, neighbourhood_range=1, detection_rule="rule")
+                    self.made[arg] = proto
                 self.area_of[id(proto)] = arg
                 self.keep.append(proto)
                 record.add_protocluster(proto)
             elif op == "AddSub":
                 area = self.uni["areas"][arg - 1]
-                sub = SubRegion(build.loc(area["extent"]), tool="verif", label=f"s{arg}")
+                sub = self.made.get(arg)
+                if sub is None:
+                    sub = SubRegion(build.loc(area["extent"]), tool="verif", label=f"s{arg}")
+                    self.made[arg] = sub
                 self.area_of[id(sub)] = arg
                 self.keep.append(sub)
                 record.add_subregion(sub)
